@@ -464,11 +464,28 @@ func Catch(f func()) (rec interface{}, sig string, stack string) {
 			}
 			buf := make([]byte, 16<<10)
 			buf = buf[:runtime.Stack(buf, false)]
-			rec, sig, stack = r, PanicSig(buf), string(buf)
+			rec, sig, stack = r, PanicSig(buf), trimStack(string(buf))
 		}
 	}()
 	f()
 	return nil, "", ""
+}
+
+// trimStack keeps the frames between the panic and the harness entry point.
+func trimStack(s string) string {
+	lines := strings.Split(s, "\n")
+	start := 0
+	for i, l := range lines {
+		if strings.HasPrefix(l, "panic(") {
+			start = i + 2
+			break
+		}
+	}
+	end := start + 12
+	if end > len(lines) {
+		end = len(lines)
+	}
+	return strings.Join(lines[start:end], "\n")
 }
 
 // rapid unwinds Fatalf/Skip with its own panic values; they must pass through.
